@@ -515,6 +515,11 @@ func c08configs(tier string) []cfg {
 	out = append(out, cfg{Shape: "direct", Mode: "perrun", NRes: 2, Writers: 1, Writes: 2, Runners: 1, Retry: 1},
 		cfg{Shape: "after", Mode: "perrun", NRes: 1, Writers: 1, Writes: 1, Runners: 1, Retry: 1})
 	out = append(out, cfg{Shape: "purge", Mode: "perrun", NRes: 2, Writers: 1, Writes: 2, Runners: 1, Pre: "10"})
+	// Stop after the creator's context was cancelled, and two concurrent Stops: everything is released all the same
+	for _, stops := range []int{1, 2} {
+		out = append(out, cfg{Shape: "cache", Mode: "perrun", NRes: 2, Writers: 1, Writes: 1, Runners: 1, Stop: true, Stops: stops},
+			cfg{Shape: "after", Mode: "perrun", NRes: 1, Writers: 1, Writes: 1, Runners: 1, Stop: true, Stops: stops})
+	}
 	if tier == "thorough" {
 		for _, shape := range []string{"cache", "twolevel", "cond", "purge"} {
 			out = append(out, cfg{Shape: shape, Mode: "perrun", NRes: 2, Writers: 2, Writes: 2, Stop: true, Runners: 1})
